@@ -121,6 +121,10 @@ structure Cfg where
   /-- F-C06-7 repair: SYN and SYN-ACK advertise the real receive window
       (`advertised_window(recv_buf_cap, 0)`) instead of the constant 65535. -/
   fixSynWindow : Bool := false
+  /-- F-C06-8 repair: the TCB keeps SND.MAX (`snd_max`, the highest `snd_nxt` ever reached); a
+      cumulative ACK is valid up to `snd_max` (not only up to the possibly rewound `snd_nxt`), and an
+      ACK that passes `snd_nxt` pulls it up. -/
+  fixSndMax : Bool := false
   deriving DecidableEq, Repr, Inhabited
 
 /-- `advertised_window` (tcp.rs:1335). -/
